@@ -967,6 +967,40 @@ def nt1(ctx, R):
                 R.violation(key, fi.where(bad), "`%s` is tested by truthiness, but %s: the value 0/'' is treated like 'not given'" % (p, why))
             else:
                 R.ok(key, fi.where(), "only compared with None / used as a value")
+    # the components of an object path (<path>.group, <path>.channel) are None when absent and may be the empty string when present:
+    # anywhere in the package, a truthiness test of one of them (or of a loop variable ranging over them) confuses the two
+    is_comp = lambda e: isinstance(e, ast.Attribute) and e.attr in ("group", "channel") and isinstance(e.ctx, ast.Load)
+    n_mod = 0
+    for mod in sorted(prog.modules.values(), key=lambda m: m.name):
+        if mod.name.startswith("test") or ".test" in mod.name:
+            continue
+        n_mod += 1
+        for f in [f for f in prog.functions.values() if f.module is mod]:
+            aliases = set()
+            for n in ast.walk(f.node):
+                its = []
+                if isinstance(n, (ast.ListComp, ast.GeneratorExp, ast.SetComp, ast.DictComp)):
+                    its += [(g.iter, g.target) for g in n.generators]
+                if isinstance(n, ast.For):
+                    its.append((n.iter, n.target))
+                for it, tgt in its:
+                    if isinstance(it, (ast.Tuple, ast.List)) and any(is_comp(e) for e in it.elts) and isinstance(tgt, ast.Name):
+                        aliases.add(tgt.id)
+            for n in ast.walk(f.node):
+                tests = []
+                if isinstance(n, (ast.If, ast.While, ast.IfExp)):
+                    tests.append(n.test)
+                if isinstance(n, ast.comprehension):
+                    tests.extend(n.ifs)
+                if isinstance(n, ast.BoolOp):
+                    tests.extend(n.values)
+                if isinstance(n, ast.UnaryOp) and isinstance(n.op, ast.Not):
+                    tests.append(n.operand)
+                for t in tests:
+                    if is_comp(t) or (isinstance(t, ast.Name) and t.id in aliases):
+                        R.violation("%s::path component tested by truthiness" % f.qual, f.where(t), "`%s` is tested by truthiness: a group or channel whose name is "
+                                    "the empty string is treated like an absent component" % unparse(t))
+    R.ok("package::path components compared with None", "nptdms", "%d modules: no truthiness test of <path>.group / <path>.channel" % n_mod)
 
 
 # ---------------------------------------------------------------------------
